@@ -20,7 +20,9 @@ import Orb.Basic
 namespace Orb.Resample
 open Orb
 
-/-- The non-panic failure of the package: the append loop never exits. -/
+/-- The non-panic failure of the package: the append loop does not exit.  Unreachable for the
+    code as it stands (the loop is bounded by `step < totalPoints` since 8096037): theorem
+    `resample_total`; kept as an outcome so that totality is a theorem, not true by construction. -/
 inductive Fail where
   | diverges
 deriving Repr, BEq, DecidableEq, Inhabited
